@@ -205,3 +205,38 @@ Proof. vm_compute. repeat split; reflexivity. Qed.
 
 Example C18_paths_text : hour_path (base / HOUR) = B "2024/03/15/14" /\ day_path (-1) = B "1969/12/31".
 Proof. vm_compute. split; reflexivity. Qed.
+
+(* ------------------------------------------------------------------------------------ *)
+(* remote storage: filterExistingRemotePaths                                             *)
+(* ------------------------------------------------------------------------------------ *)
+
+(* For EVERY outcome of the storage calls whose successful listings are complete (failed ones
+   are arbitrary): an hour partition that holds files is never dropped from the pruned list -
+   in particular not when the ListDirectories call of its parent failed. *)
+Theorem C18_remote_keeps_hour : forall rw tr ps h,
+  faithful rw tr -> In h (t_hours tr) -> In (PHour h) ps -> In (PHour h) (filter_remote rw ps).
+Proof. exact remote_keeps_hour. Qed.
+Print Assumptions C18_remote_keeps_hour.
+
+(* ... and a day partition that holds daily-compacted files is never dropped either: whether the
+   listing of its month and the List call for its direct files succeed or fail (4553183). *)
+Theorem C18_remote_keeps_day : forall rw tr ps d,
+  faithful rw tr -> In d (t_days tr) -> In (PDay d) ps -> In (PDay d) (filter_remote rw ps).
+Proof. exact remote_keeps_day. Qed.
+Print Assumptions C18_remote_keeps_day.
+
+(* the worlds the correspondence builds (stored partitions + injected faults) are faithful *)
+Theorem C18_remote_world_faithful : forall x, faithful (remote_of x) {| t_hours := rw_hours x; t_days := rw_days x |}.
+Proof. exact remote_of_faithful. Qed.
+Print Assumptions C18_remote_world_faithful.
+
+(* regression witness of the fixed finding: List(<day>/) fails, the day path stays *)
+Example C18_remote_day_list_failure_regression :
+  let x := {| rw_hours := [475142]; rw_days := [19797]; rw_fail_day := []; rw_fail_month := []; rw_fail_list := [19797] |} in
+  filter_remote (remote_of x) (gen_paths [475142; 475143]) = [PHour 475142; PDay 19797].
+Proof. vm_compute. reflexivity. Qed.
+
+Example C18_remote_nonvacuous :      (* the parent listing of day 19797 fails: both of its hours stay, the unlisted hour of the next day goes *)
+  let x := {| rw_hours := [475142; 475150]; rw_days := [19797]; rw_fail_day := [19797]; rw_fail_month := []; rw_fail_list := [] |} in
+  filter_remote (remote_of x) (gen_paths [475142; 475143; 475152]) = [PHour 475142; PHour 475143; PDay 19797].
+Proof. vm_compute. reflexivity. Qed.
